@@ -401,7 +401,22 @@ def _polyroots_semantics(ctx, mdl):
     returned list must be exactly: the real parts of the roots whose imaginary part the path knows to be ~0, that satisfy the
     condition, minus every one that is close to an EARLIER kept root (so exactly one representative of a cluster survives)."""
     fi = mdl.func('polytools.polyroots')
-    roots = [Rat.csym('rho%d' % i) for i in range(3)]
+    for deg in (3, 2, 1):
+        _polyroots_filters(ctx, mdl, fi, deg)
+    _polyroots01_rules(ctx, mdl)
+
+
+def _polyroots_filters(ctx, mdl, fi, deg):
+    roots = [Rat.csym('rho%d' % i) for i in range(deg)]
+    # the monic polynomial with these roots, as the coefficient list (highest power first) the function is given
+    coeffs = [Rat.const(1)]
+    for r_ in roots:
+        nxt = coeffs + [Rat.const(0)]
+        for i_ in range(len(coeffs)):
+            nxt[i_ + 1] = nxt[i_ + 1] - r_ * coeffs[i_]
+        coeffs = nxt
+
+    called = {}
 
     def cond_hook(it, a, k):
         r = to_rat(a[0])
@@ -409,19 +424,27 @@ def _polyroots_semantics(ctx, mdl):
 
     def th(it):
         from svtstatic.values import PyFunc
-        it.ext_hooks['numpy.roots'] = lambda it2, a, k: list(roots)
+        called['roots'] = False
+        it.ext_hooks['numpy.roots'] = lambda it2, a, k: called.update(roots=True) or list(roots)
         # the package's isclose (|a-b| < atol + rtol|b|) is modelled like numpy.isclose: an approximate-equality label
         from svtstatic import builtins_model as bm
         it.call_hooks['misctools.isclose'] = lambda it2, a, k: bm.call_ext(it2, 'numpy.isclose', a, k)
-        r = it.call(it.closure_of('polytools.polyroots'), [Rat.sym('coeffs')], {'realroots': True, 'condition': PyFunc(cond_hook, 'cond')})
+        r = it.call(it.closure_of('polytools.polyroots'), [list(coeffs)], {'realroots': True, 'condition': PyFunc(cond_hook, 'cond')})
         facts = []
         for z in roots:
             sgn, key, _ = _canon_diff(z.imag())
             real_ = it.trace.signs.get('close:' + key)
             facts.append((real_, path_sign(it, z.real())))
-        return list(r), facts, it
+        return list(r), facts, it, called['roots']
 
     def judge(v):
+        ok_, d_ = judge0(v[:3])
+        if ok_ is False and not v[3] and deg > 1:
+            # the roots were not taken from numpy.roots: a closed form of degree >= 2 involves radicals the normal form cannot compare
+            return None, 'own root formula instead of numpy.roots (degree %d): not comparable - %s' % (deg, d_)
+        return ok_, d_
+
+    def judge0(v):
         res, facts, it = v
         kept = []
         for i, (z, (real_, pos)) in enumerate(zip(roots, facts)):
@@ -457,8 +480,10 @@ def _polyroots_semantics(ctx, mdl):
         # accept another representative of the same cluster: compare as multisets of cluster ids
         return False, 'returns roots %s; expected the real parts of roots %s (real, satisfying the condition, one per cluster)' % (
             [short(g, 20) for g in got], survivors)
-    Obligation(ctx, 'R19.3').run(fi, 'polyroots(realroots=True, condition) on 3 symbolic roots', th, judge)
+    Obligation(ctx, 'R19.3').run(fi, 'polyroots(realroots=True, condition) on the monic polynomial with %d symbolic root(s)' % deg, th, judge)
 
+
+def _polyroots01_rules(ctx, mdl):
     f01 = mdl.func('polytools.polyroots01')
 
     def th01(it):
